@@ -183,6 +183,8 @@ def env():
     PC.socket = shim
 
     PC.time = Clock
+    from .rebind import rebind              # the same stand-ins under any import style of client.py
+    rebind(PC, {"select": FakeSelect, "socket": shim, "time": Clock})
     _ENV["queue"] = queue
     for tid, (size, h) in TEST_DEFS.items():
         ns: Dict[str, Any] = {"type_id": tid, "type_name": f"T{tid}", "type_hash": h, "type_size": size,
@@ -478,6 +480,8 @@ def tcp_smoke(cases: List[Dict[str, Any]]) -> List[Dict[str, Any]]:
         c._sub_all, c._subscribed_types = bool(case["sub"][0]), set(case["sub"][1])
         saved = PC.select
         PC.select = real_select
+        from .rebind import rebind
+        rebind(PC, {"select": real_select})
         real = []
         try:
             for call in case["calls"]:
@@ -499,6 +503,7 @@ def tcp_smoke(cases: List[Dict[str, Any]]) -> List[Dict[str, Any]]:
                 real.append([r, int(bool(c.connected))])
         finally:
             PC.select = saved
+            rebind(PC, {"select": saved})
             c._connected = False
             cli.close()
         fk = [[f[2], int(f[1])] for f in fake]
